@@ -24,6 +24,7 @@ LEVEL = 'exploration'
 RULE = ('routes x BOM x option sets x documents, every combination executed; a case = (document, BOM, option set) compared across all routes; '
         'distinct_nontrivial = distinct (document, BOM, options, route) parses compared with the reference route')
 ASSUMPTIONS = ['files are written by the harness as UTF-8 into a fresh temporary directory that is removed afterwards',
+               'open files are opened with newline="" so that the library receives the same characters on every route (Python would otherwise translate CRLF)',
                'PyDBML.parse_file takes no options (its signature); it is compared with the default option set only']
 
 ROUTES = ['PyDBML(str)', 'PyDBML(Path)', 'PyDBML(open file)', 'PyDBML.parse(str)', 'PyDBML().parse(str)',
@@ -57,6 +58,7 @@ def documents():
     docs.append(('comment-only', '// just a comment\n/* and a block */\n', False))
     docs.append(('one-table-no-eol', 'Table t {\n  id int\n}', False))
     docs.append(('crlf', 'Table t {\r\n  id int\r\n}\r\n', False))
+    docs.append(('crlf-comment-note', "// about t\r\nTable t {\r\n  id int // trailing\r\n  Note: '''line one\r\n  line two'''\r\n}\r\n", False))
     for name in ('Ta', 'E', 'Tb_inl'):
         mm, order, ok = c01.state_model(('Ta', name) if name != 'Ta' else ('Ta', 'N'))
         docs.append((f'bfs-{name}', writer.write(mm, writer.Style(case='upper', airy=True), order), False))
@@ -90,7 +92,7 @@ def run_route(route, text, path, kw):
         if route == 1:
             return 'db', PyDBML(pathlib.Path(path), **kw)
         if route == 2:
-            with open(path, encoding='utf8') as f:
+            with open(path, encoding='utf8', newline='') as f:
                 return 'db', PyDBML(f, **kw)
         if route == 3:
             return 'db', PyDBML.parse(text, **kw)
@@ -101,10 +103,10 @@ def run_route(route, text, path, kw):
         if route == 6:
             return 'db', PyDBML.parse_file(pathlib.Path(path))
         if route == 7:
-            with open(path, encoding='utf8') as f:
+            with open(path, encoding='utf8', newline='') as f:
                 return 'db', PyDBML.parse_file(f)
         if route == 8:
-            with open(path, encoding='utf-8-sig') as f:
+            with open(path, encoding='utf-8-sig', newline='') as f:
                 return 'db', PyDBML(f, **kw)
     except Exception as e:
         return 'raised', e
